@@ -129,7 +129,13 @@ def loc_expr(loc):
         return ["extsize", ["c", ADDRS[loc[1]]]]
     if k == "echo":  # the msg.sender that a callee of this test sees (computed by echo_pre)
         return ["mload", 0x6C0]
+    if k == "sha":  # keccak256 of the (possibly symbolic, set in setUp) word in a storage slot (hash_pre)
+        return ["sha", 0x660, 32]
     raise ValueError(loc)
+
+
+def hash_pre(loc):
+    return [["mstore", 0x660, ["sload", ["c", loc[1]]]]]
 
 
 def echo_pre():
@@ -167,6 +173,8 @@ def test_body(t):
     ck = t["check"]
     if ck["loc"][0] == "echo":
         body += echo_pre()
+    if ck["loc"][0] == "sha":
+        body += hash_pre(ck["loc"])
     scond = {"eq": ["op2", "EQ", loc_expr(ck["loc"]), ["c", ck["c"]]], "ne": ["op1", "ISZERO", ["op2", "EQ", loc_expr(ck["loc"]), ["c", ck["c"]]]], "lt": ["op2", "LT", loc_expr(ck["loc"]), ["c", ck["c"]]]}[ck["cmp"]]
     body.append(["if", cond, [["if", scond, e2e.fail_stmts(t["fail"]), []]], []])
     for m in t["post"]:
@@ -454,11 +462,13 @@ def loc_st():
         st.just(["ts"]),
         st.builds(lambda a: ["codesize", a], st.sampled_from([0, 1])),
         st.just(["echo"]),
+        st.builds(lambda s_: ["sha", s_], st.sampled_from(SLOTS)),
     )
 
 
 def mut_st():
-    return st.builds(lambda loc, v: loc + [v], loc_st(), st.sampled_from(VALS + [7, "arg"]))
+    # (a hash is read-only: as a mutation target it stands for the slot it hashes)
+    return st.builds(lambda loc, v: (["slot", loc[1]] if loc[0] == "sha" else loc) + [v], loc_st(), st.sampled_from(VALS + [7, "arg"]))
 
 
 def test_st():
